@@ -675,6 +675,11 @@ def _ite_struct(ce, a, b):
         o = type(a)(a.cls, parts, a.base_list)
         o.shape = a.shape
         return o
+    if type(a).__name__ == "SFMap" and type(b).__name__ == "SFMap":
+        # two dicts with symbolic keys (pyvc.fmap): a frozen map whose observers are the pointwise conditionals
+        from .fmap import _ite_maps
+
+        return _ite_maps(ce, a, b)
     if isinstance(a, (bool, SBool)) and isinstance(b, (bool, SBool)):
         return mk_bool(z3.If(ce, _zb(a), _zb(b)))
     if is_num(a) and is_num(b) and not isinstance(a, (bool, SBool)) and not isinstance(b, (bool, SBool)):
@@ -715,7 +720,21 @@ def _ite_struct(ce, a, b):
             return SAtom(z3.If(ce, ea, eb), tuple(dict.fromkeys(da + db)))
         return _NOITE
     if isinstance(a, tuple) and isinstance(b, tuple) and len(a) == len(b):
-        parts = [_ite_struct(ce, x, y) for x, y in zip(a, b)]
+        def comp(x, y):
+            if type(x).__name__ == "LRef" or type(y).__name__ == "LRef":
+                # a list object met as a COMPONENT of a tuple (`shards.append((n, new_cviews))` read back at a symbolic
+                # index): the conditional is over its content at the time of the read -- an immutable sequence value, so
+                # nothing can be mutated through the result (no aliasing is introduced); the by-value reading of
+                # seqs.fresh_seq for lists nested in tuples
+                cx = x.seq if type(x).__name__ == "LRef" else x
+                cy = y.seq if type(y).__name__ == "LRef" else y
+                ok = _SEQ_NAMES + ("tuple",)
+                if type(cx).__name__ in ok and type(cy).__name__ in ok:
+                    return _ite_struct(ce, cx, cy)
+                return _NOITE
+            return _ite_struct(ce, x, y)
+
+        parts = [comp(x, y) for x, y in zip(a, b)]
         return tuple(SIte(ce, x, y) if p is _NOITE else p for p, x, y in zip(parts, a, b))
     if isinstance(a, SOpt) or isinstance(b, SOpt) or a is None or b is None:
         def split(x):
